@@ -386,8 +386,10 @@ func init() {
 			}
 			return vs, func() int { d, _ := vs.VerifDepth(); return d }
 		},
-		newParser:   func(vs structform.Visitor) parserI { return jsonParser{sfjson.NewParser(vs)} },
-		parseReader: func(in io.Reader, vs structform.Visitor) (int64, error) { return sfjson.ParseReader(in, vs) },
+		newParser:      func(vs structform.Visitor) parserI { return jsonParser{sfjson.NewParser(vs)} },
+		parseReader:    func(in io.Reader, vs structform.Visitor) (int64, error) { return sfjson.ParseReader(in, vs) },
+		pkgParse:       func(b []byte, vs structform.Visitor) error { return sfjson.Parse(b, vs) },
+		pkgParseString: func(str string, vs structform.Visitor) error { return sfjson.ParseString(str, vs) },
 		newDecoder: func(in io.Reader, buf int, vs structform.Visitor) decoderI {
 			return sfjson.NewDecoder(in, buf, vs)
 		},
